@@ -453,7 +453,8 @@ OwnDouble(dt) ==
     TickForms(UNION {Around(dt, l) : l \in lo \cup hi} \cup {0, 40})
     \cup {NX(t, FALSE) : t \in UNION {{l - 1, l} : l \in lo \cup hi}}
 OwnInt(dt) == LET ns == {dt.min - 1, dt.min, dt.min + 1, dt.max - 1, dt.max, dt.max + 1} IN
-    {I(n) : n \in ns} \cup {N(n * U) : n \in ns} \cup {N(n * U + 8) : n \in {dt.min, dt.max}}
+    {I(n) : n \in ns} \cup {N(n * U) : n \in {m \in ns : Abs(m * U) < HUGE}}
+    \cup {N(n * U + 8) : n \in {m \in {dt.min, dt.max} : Abs(m * U) + 8 < HUGE}}
 CI(a, d) == IF a = 0 /\ Abs(d) < HUGE THEN I(d) ELSE BI(a, d)      \* as a candidate a small integer is an "int"
 OwnBig(dt) ==
     UNION {{CI(p.a, p.d - 1), CI(p.a, p.d), CI(p.a, p.d + 1)} : p \in {dt.min, dt.max}}
@@ -529,6 +530,7 @@ Cands(dt) == Common \cup
       [] dt.k = "bigint" -> OwnBig(dt)
       [] dt.k = "scaled" -> OwnScaled(dt)
       [] dt.k = "gscaled" -> OwnGScaled(dt)
+      [] dt.k = "command" -> {}
       [] dt.k = "bool" -> {}
       [] dt.k = "enum" -> OwnEnum(dt)
       [] dt.k = "string" -> OwnString(dt)
@@ -956,10 +958,10 @@ Depth2N(ns) ==
     \o [i \in 1 .. ns |-> Stc(<<M("s", AB(Sm(i), Sm(i + 1), <<"b">>)), M("k", Sm(i + 2))>>, <<"s">>)]
 Depth2 == Depth2N(NS)
 Depth1Quick ==
-    [i \in 1 .. NL |-> Arr(Lf(i), 0, 2)] \o [i \in 1 .. NL \div 2 |-> Arr(Lf(2 * i), 1, 3)]
+    [i \in 1 .. NL |-> Arr(Lf(i), 0, 2)] \o [i \in 1 .. NL \div 3 |-> Arr(Lf(3 * i), 1, 3)]
     \o [i \in 1 .. NL |-> Tup(<<Lf(i), Lf(i + 1)>>)]
-    \o [i \in 1 .. NL |-> AB(Lf(i), Lf(i + 5), <<"b">>)]
-    \o [i \in 1 .. NL \div 2 |-> AB(Lf(2 * i + 3), Lf(2 * i), IF i % 2 = 0 THEN <<>> ELSE <<"a", "b">>)]
+    \o [i \in 1 .. NL \div 2 |-> AB(Lf(2 * i - 1), Lf(2 * i + 4), <<"b">>)]
+    \o [i \in 1 .. NL \div 4 |-> AB(Lf(4 * i + 3), Lf(4 * i), IF i % 2 = 0 THEN <<>> ELSE <<"a", "b">>)]
     \o <<Tup(<<Lf(6), Lf(13), Lf(8)>>), Tup(<<Lf(15)>>), Arr(Lf(6), 2, 2), Arr(Lim(IntT(-2, 3)), 0, 2),
          AB(Lim(Dbl(-16, 40, 4, 0)), Text(5), <<"b">>)>>
 AllPairs == [i \in 1 .. NL * NL |-> Tup(<<Lf(((i - 1) \div NL) + 1), Lf(((i - 1) % NL) + 1)>>)]
